@@ -5,6 +5,9 @@ package grpctunnel
 // the solver produced; assertions report instead of being checked symbolically.
 
 import (
+	"google.golang.org/protobuf/proto"
+	"google.golang.org/protobuf/types/known/wrapperspb"
+
 	"bytes"
 	"context"
 	"encoding/json"
@@ -52,6 +55,9 @@ var verifState struct {
 	mainGID  uint64
 	wg       sync.WaitGroup
 	baseG    int
+	gen      int
+	finished bool
+	doneCh   chan string
 }
 
 func verifGID() uint64 {
@@ -167,7 +173,40 @@ func verifYield()          { runtime.Gosched(); time.Sleep(time.Millisecond) }
 func verifAllowBlock()     {}
 func verifInlineGo(on bool) {}
 func verifOnSync(f func())  {}
-func verifOnBlock(f func()) {}
+
+// verifOnBlock: natively there is no scheduler to ask, so a watchdog assumes
+// the harness is blocked when it has not finished 50 ms later, and runs f then
+// (while the harness goroutine is parked), up to 16 times.
+func verifOnBlock(f func()) {
+	verifState.mu.Lock()
+	gen := verifState.gen
+	done := verifState.doneCh
+	verifState.mu.Unlock()
+	go func() {
+		defer func() {
+			if r := recover(); r != nil {
+				if s, ok := r.(verifStop); ok {
+					select {
+					case done <- "stop:" + s.why:
+					default:
+					}
+					return
+				}
+				panic(r)
+			}
+		}()
+		for i := 0; i < 16; i++ {
+			time.Sleep(50 * time.Millisecond)
+			verifState.mu.Lock()
+			stale := verifState.gen != gen || verifState.finished
+			verifState.mu.Unlock()
+			if stale {
+				return
+			}
+			f()
+		}
+	}()
+}
 
 func verifThreadID() int {
 	if verifGID() == verifState.mainGID {
@@ -176,11 +215,30 @@ func verifThreadID() int {
 	return int(verifGID())
 }
 
+// verifLiveGoroutines: goroutines started by library code (not by the
+// harness or the test driver) that are still alive after a settle period.
 func verifLiveGoroutines() int {
-	verifDrain()
-	n := runtime.NumGoroutine() - verifState.baseG
-	if n < 0 {
+	n := 0
+	for try := 0; try < 5; try++ {
+		verifDrain()
+		buf := make([]byte, 1<<20)
+		buf = buf[:runtime.Stack(buf, true)]
 		n = 0
+		for _, g := range bytes.Split(buf, []byte("\n\n")) {
+			i := bytes.Index(g, []byte("created by github.com/jhump/grpctunnel."))
+			if i < 0 {
+				continue
+			}
+			name := g[i+len("created by github.com/jhump/grpctunnel."):]
+			name = bytes.TrimPrefix(name, []byte("(*"))
+			if bytes.HasPrefix(name, []byte("verif")) || (len(name) > 1 && name[0] == 'v' && name[1] >= 'A' && name[1] <= 'Z') {
+				continue
+			}
+			n++
+		}
+		if n == 0 {
+			break
+		}
 	}
 	return n
 }
@@ -269,8 +327,11 @@ func verifReplayOne(path string, funcs map[string]func()) {
 	verifState.failed = nil
 	verifState.diverged = ""
 	verifState.observed = nil
+	verifState.gen++
+	verifState.finished = false
+	done := make(chan string, 4)
+	verifState.doneCh = done
 	verifState.mu.Unlock()
-	done := make(chan string, 1)
 	go func() {
 		verifState.mainGID = verifGID()
 		verifState.baseG = runtime.NumGoroutine()
@@ -297,6 +358,7 @@ func verifReplayOne(path string, funcs map[string]func()) {
 	}
 	verifState.mu.Lock()
 	defer verifState.mu.Unlock()
+	verifState.finished = true
 	switch {
 	case len(how) >= 6 && how[:6] == "panic:":
 		fmt.Printf("VERIF-REPLAY %s: PANIC %s\n", path, how[6:])
@@ -311,3 +373,13 @@ func verifReplayOne(path string, funcs map[string]func()) {
 		fmt.Printf("VERIF-REPLAY %s: OK %s\n", path, ob)
 	}
 }
+
+func verifWire(payload []byte) []byte {
+	b, err := proto.Marshal(&wrapperspb.BytesValue{Value: payload})
+	if err != nil {
+		panic(err)
+	}
+	return b
+}
+
+func verifNative() bool { return true }
